@@ -12,6 +12,8 @@ import (
 )
 
 var digits = regexp.MustCompile(`[0-9]+`)
+var numericID = regexp.MustCompile(`^[0-9]+$`)
+var tableTemplate = regexp.MustCompile(`^Table(Normal|Grid|List|Colorful|Columns|Rows|Plain)[0-9]*$`)
 
 // normPart makes a part name input-independent: digits -> N.
 func normPart(n string) string { return digits.ReplaceAllString(n, "N") }
@@ -200,7 +202,7 @@ func CheckRels(pkg *inspect.Package) []sim.Violation {
 
 // CheckIDClosure is the C13 oracle: every style / numbering / note id used in
 // a content part is defined in the package.
-func CheckIDClosure(pkg *inspect.Package) []sim.Violation {
+func CheckIDClosure(pkg *inspect.Package, exempt map[string]bool) []sim.Violation {
 	var out []sim.Violation
 	styles := map[string]bool{}
 	haveStyles := false
@@ -262,6 +264,9 @@ func CheckIDClosure(pkg *inspect.Package) []sim.Violation {
 			switch n.Local {
 			case "pStyle", "rStyle", "tblStyle":
 				id := n.Val()
+				if exempt[id] {
+					return true // the caller referred to an id it never defined: not the library's doing
+				}
 				if !haveStyles || !styles[id] {
 					add(v("undefined-style", n.Local+":"+styleClass(id), fmt.Sprintf("%s uses %s %q which word/styles.xml does not define", name, n.Local, id)))
 				}
@@ -293,6 +298,12 @@ func CheckIDClosure(pkg *inspect.Package) []sim.Violation {
 
 // styleClass keeps well-known ids and folds generated ones.
 func styleClass(id string) string {
+	if tableTemplate.MatchString(id) {
+		return "table-style-template"
+	}
+	if numericID.MatchString(id) {
+		return "numeric-toc-style"
+	}
 	if strings.Contains(id, "⟦") || len(id) > 24 {
 		return "custom"
 	}
